@@ -7,6 +7,7 @@
 -/
 import Cvss.Py
 import Cvss.Gen.Code3
+import Cvss.Model.Json
 import Cvss.Model.V3
 namespace Cvss.Props.CodeTie3
 open Cvss Cvss.Gen
@@ -1064,5 +1065,256 @@ theorem temporal_vector_eq (self : Code3.Self) (o : Model.V3.Obj) (h : o.metrics
 theorem environmental_vector_eq (self : Code3.Self) (o : Model.V3.Obj) (h : o.metrics = self.metrics) :
     Code3.environmental_vector self = .ok o.environmentalVector := by
   simp [Code3.environmental_vector, Model.V3.Obj.environmentalVector, h, Model.V3.X, Py.getD, pure, Except.pure]
+
+
+/-- the model's JSON values inside the translation's (which also has `null`) -/
+def jOf : Model.JVal → Py.J
+  | .str s => .str s
+  | .num x => .num x
+
+namespace Aux
+
+/-- the model's JSON dict inside the translation's -/
+abbrev jm (d : Model.JObj) : List (Str × Py.J) := d.map (fun kv => (kv.1, jOf kv.2))
+
+theorem insert_jm (k : Str) (v : Model.JVal) (d : Model.JObj) :
+    insert k (jOf v) (jm d) = jm (insert k v d) := by
+  induction d with
+  | nil => rfl
+  | cons p rest ih =>
+    obtain ⟨a, b⟩ := p
+    by_cases h : k = a
+    · simp [jm, insert, h]
+    · simp only [jm] at ih
+      simp [jm, insert, h, ih]
+
+theorem insert_jm_str (k s : Str) (d : Model.JObj) :
+    insert k (Py.J.str s) (jm d) = jm (insert k (.str s) d) := insert_jm k (.str s) d
+
+theorem insert_jm_num (k : Str) (x : Rat) (d : Model.JObj) :
+    insert k (Py.J.num x) (jm d) = jm (insert k (.num x) d) := insert_jm k (.num x) d
+
+theorem strLt_eq : ∀ a b : Str, Py.strLt a b = Model.strLt a b
+  | [], [] => rfl
+  | [], _ :: _ => rfl
+  | _ :: _, [] => rfl
+  | a :: as, b :: bs => by simp only [Py.strLt, Model.strLt, strLt_eq as bs]
+
+theorem insertSorted_jm (kv : Str × Model.JVal) (d : Model.JObj) :
+    Py.insertSorted (kv.1, jOf kv.2) (jm d) = jm (Model.insertSorted kv d) := by
+  induction d with
+  | nil => rfl
+  | cons x xs ih =>
+    simp only [jm] at ih
+    simp only [jm, List.map_cons, Py.insertSorted, Model.insertSorted, strLt_eq]
+    split
+    · rfl
+    · simp only [List.map_cons, ih]
+
+theorem foldl_sorted (l : Model.JObj) : ∀ acc : Model.JObj,
+    List.foldl (fun acc kv => Py.insertSorted kv acc) (jm acc) (jm l) =
+      jm (List.foldl (fun acc kv => Model.insertSorted kv acc) acc l) := by
+  induction l with
+  | nil => intro acc; rfl
+  | cons x xs ih =>
+    intro acc
+    have := ih (Model.insertSorted x acc)
+    simp only [jm] at this
+    simp only [jm, List.map_cons, List.foldl_cons]
+    rw [← this]
+    congr 1
+    exact insertSorted_jm x acc
+
+theorem sorted_jm (d : Model.JObj) : Py.sortedItems (jm d) = jm (Model.sortObj d) :=
+  foldl_sorted d []
+
+/-- the local closure `us` of `as_json` -/
+def usM (text : Str) : Py.M Str := (do
+    if (text = c!"Adjacent") then (do
+        pure c!"ADJACENT_NETWORK") else (do
+        pure (replaceChar ' ' '_' (replaceChar '-' '_' (Py.upper text)))))
+
+theorem usM_eq (t : Str) : usM t = .ok (Model.us3 t) := by
+  unfold usM Model.us3 Model.us2
+  split <;> rfl
+
+/-- the loop body of the three loops of `as_json` (`add_metric_to_data`) -/
+def ajBody (self : Code3.Self) (st : List (Str × Py.J)) (metric : Str) : Py.M (List (Str × Py.J)) := (do
+    let t2 ← Py.getitem metric Gen.V3.jsonKeys
+    let t3 ← Code3.get_value_description self metric
+    let t4 ← usM t3
+    pure (Py.setitem t2 (Py.J.str t4) st))
+
+theorem aj_fold (self : Code3.Self) (l : List Str) : ∀ d : Model.JObj,
+    (List.foldlM (ajBody self) (jm d) l).toOption =
+      (Model.addMetrics Gen.V3.jsonKeys (Model.V3.getDescription self.metrics) Model.us3 d l).map jm := by
+  induction l with
+  | nil => intro d; rfl
+  | cons a rest ih =>
+    intro d
+    rw [List.foldlM_cons, toOption_bind]
+    unfold Model.addMetrics
+    simp only [ajBody, toOption_bind, toOption_getitem, get_value_description_eq, usM_eq, toOption_ok,
+      toOption_pure, Py.setitem]
+    cases lookup a Gen.V3.jsonKeys with
+    | none => rfl
+    | some k =>
+      cases Model.V3.getDescription self.metrics a with
+      | none => rfl
+      | some dsc =>
+        simp only [Option.bind_some, insert_jm_str, ih]
+
+/-- an optional group (temporal / environmental) of `as_json` -/
+def ajOpt (self : Code3.Self) (minimal : Bool) (group : List Str) (score : Option Rat) (scoreKey sevKey sev : Str)
+    (data : List (Str × Py.J)) : Py.M (List (Str × Py.J)) := (do
+  let b8 ← (do
+      if (¬ (minimal = true)) then pure true else (do
+          let d7 ← Py.req self.original_metrics
+          pure (decide ((List.any group (fun metric => decide (Py.contains metric d7 = true))) = true))))
+  (if (b8 = true) then (do
+      let data ← List.foldlM (ajBody self) data group
+      let v12 ← Py.req score
+      let data : List (Str × Py.J) := Py.setitem scoreKey (Py.J.num v12) data
+      let t13 ← usM sev
+      let data : List (Str × Py.J) := Py.setitem sevKey (Py.J.str t13) data
+      pure data) else (do
+      pure data)))
+
+/-- the same followed by the rest of the function, as the translation nests it -/
+def ajOptK {β : Type} (self : Code3.Self) (minimal : Bool) (group : List Str) (score : Option Rat)
+    (scoreKey sevKey sev : Str) (data : List (Str × Py.J)) (k : List (Str × Py.J) → Py.M β) : Py.M β := (do
+  let b8 ← (do
+      if (¬ (minimal = true)) then pure true else (do
+          let d7 ← Py.req self.original_metrics
+          pure (decide ((List.any group (fun metric => decide (Py.contains metric d7 = true))) = true))))
+  let data ← (if (b8 = true) then (do
+      let data ← List.foldlM (ajBody self) data group
+      let v12 ← Py.req score
+      let data : List (Str × Py.J) := Py.setitem scoreKey (Py.J.num v12) data
+      let t13 ← usM sev
+      let data : List (Str × Py.J) := Py.setitem sevKey (Py.J.str t13) data
+      pure data) else (do
+      pure data))
+  k data)
+
+theorem ajOptK_eq {β : Type} (self : Code3.Self) (minimal : Bool) (group : List Str) (score : Option Rat)
+    (scoreKey sevKey sev : Str) (data : List (Str × Py.J)) (k : List (Str × Py.J) → Py.M β) :
+    ajOptK self minimal group score scoreKey sevKey sev data k =
+      ajOpt self minimal group score scoreKey sevKey sev data >>= k := by
+  unfold ajOptK ajOpt
+  rw [bind_assoc]
+
+theorem ajOpt_eq (self : Code3.Self) (orig : List (Str × Str)) (ho : self.original_metrics = some orig)
+    (minimal : Bool) (group : List Str) (x : Rat) (scoreKey sevKey sev : Str) (d : Model.JObj) :
+    (ajOpt self minimal group (some x) scoreKey sevKey sev (jm d)).toOption =
+      (if (!minimal || group.any (fun k => hasKey k orig)) = true then
+        (Model.addMetrics Gen.V3.jsonKeys (Model.V3.getDescription self.metrics) Model.us3 d group).bind
+          (fun d' => some (insert sevKey (.str (Model.us3 sev)) (insert scoreKey (.num x) d')))
+       else some d).map jm := by
+  unfold ajOpt
+  cases minimal with
+  | false =>
+    simp only [Bool.false_eq_true, not_false_eq_true, if_true, Bool.not_false, Bool.true_or,
+      toOption_bind, toOption_pure, Option.bind_some, aj_fold, toOption_req, usM_eq, toOption_ok, Py.setitem]
+    cases Model.addMetrics Gen.V3.jsonKeys (Model.V3.getDescription self.metrics) Model.us3 d group with
+    | none => rfl
+    | some d' => simp only [Option.map_some, Option.bind_some, insert_jm_num, insert_jm_str]
+  | true =>
+    simp only [not_true_eq_false, if_false, Bool.not_true, Bool.false_or, ho, Py.contains,
+      toOption_bind, toOption_pure, Option.bind_some, toOption_req, Bool.decide_eq_true]
+    cases List.any group (fun k => hasKey k orig) with
+    | false => rfl
+    | true =>
+      simp only [if_true, toOption_bind, toOption_pure, Option.bind_some, aj_fold, toOption_req, usM_eq,
+        toOption_ok, Py.setitem]
+      cases Model.addMetrics Gen.V3.jsonKeys (Model.V3.getDescription self.metrics) Model.us3 d group with
+      | none => rfl
+      | some d' => simp only [Option.map_some, Option.bind_some, insert_jm_num, insert_jm_str]
+
+theorem aj_tail (self : Code3.Self) (orig : List (Str × Str)) (ho : self.original_metrics = some orig)
+    (minimal sort : Bool) (x : Rat) (scoreKey sevKey sev : Str) (d : Model.JObj) :
+    ((ajOpt self minimal Gen.V3.environmental (some x) scoreKey sevKey sev (jm d)).toOption.bind fun a =>
+        (if sort = true then pure (Py.sortedItems a) else pure a : Py.M (List (Str × Py.J))).toOption) =
+      Option.map jm
+        (if (!minimal || Gen.V3.environmental.any (fun k => hasKey k orig)) = true then
+          (Model.addMetrics Gen.V3.jsonKeys (Model.V3.getDescription self.metrics) Model.us3 d
+              Gen.V3.environmental).bind fun d =>
+            some (if sort = true then
+                Model.sortObj (insert sevKey (.str (Model.us3 sev)) (insert scoreKey (.num x) d))
+              else insert sevKey (.str (Model.us3 sev)) (insert scoreKey (.num x) d))
+        else some (if sort = true then Model.sortObj d else d)) := by
+  rw [ajOpt_eq self orig ho]
+  have hs : ∀ d3 : Model.JObj,
+      (if sort = true then pure (Py.sortedItems (jm d3)) else pure (jm d3) : Py.M (List (Str × Py.J))).toOption =
+        some (jm (if sort = true then Model.sortObj d3 else d3)) := by
+    intro d3
+    cases sort
+    · rfl
+    · simp only [if_true, sorted_jm]; rfl
+  by_cases c : (!minimal || Gen.V3.environmental.any (fun k => hasKey k orig)) = true
+  · simp only [c, if_true]
+    cases Model.addMetrics Gen.V3.jsonKeys (Model.V3.getDescription self.metrics) Model.us3 d
+        Gen.V3.environmental with
+    | none => rfl
+    | some d' => simp only [Option.bind_some, Option.map_some, hs]
+  · simp only [c, Bool.false_eq_true, if_false, Option.bind_some, Option.map_some, hs]
+
+theorem aj_unfold (self : Code3.Self) (sort minimal : Bool) :
+    Code3.as_json self sort minimal = (do
+      let t1 ← Code3.severities self
+      let (base_severity, temporal_severity, environmental_severity) ← Py.unpack3 t1
+      let data ← List.foldlM (ajBody self)
+        ([(c!"version", (Py.J.str (c!"3." ++ (Py.strOInt self.minor_version)))), (c!"vectorString", (Py.J.str self.vector))] : List (Str × Py.J))
+        Gen.V3.mandatory
+      let v5 ← Py.req self.base_score
+      let data : List (Str × Py.J) := Py.setitem c!"baseScore" (Py.J.num v5) data
+      let t6 ← usM base_severity
+      let data : List (Str × Py.J) := Py.setitem c!"baseSeverity" (Py.J.str t6) data
+      ajOptK self minimal Gen.V3.temporal self.temporal_score c!"temporalScore" c!"temporalSeverity"
+        temporal_severity data fun data =>
+      ajOptK self minimal Gen.V3.environmental self.environmental_score c!"environmentalScore"
+        c!"environmentalSeverity" environmental_severity data fun data => do
+      let data ← (if (sort = true) then (do
+          let data : List (Str × Py.J) := (Py.sortedItems data)
+          pure data) else (do
+          pure data))
+      pure data) := by
+  unfold Code3.as_json; rfl
+
+end Aux
+
+/-- `as_json(sort, minimal)` on a constructed object, all four option sets: same keys, same values, same
+    order (or both raise) -/
+theorem as_json_eq (self : Code3.Self) (o : Model.V3.Obj) (sort minimal : Bool)
+    (hv : o.vector = self.vector) (hmi : self.minor_version = some (o.minor : Int))
+    (ho : self.original_metrics = some o.orig) (hm : o.metrics = self.metrics)
+    (hb : self.base_score = some o.base) (ht : self.temporal_score = some o.temporal)
+    (he : self.environmental_score = some o.env) :
+    (Code3.as_json self sort minimal).toOption =
+      (Model.asJson3 o sort minimal).map (List.map (fun kv => (kv.1, jOf kv.2))) := by
+  have h0 : ([(c!"version", (Py.J.str (c!"3." ++ natToStr o.minor))), (c!"vectorString", (Py.J.str self.vector))] : List (Str × Py.J))
+      = Aux.jm [(c!"version", .str (c!"3." ++ natToStr o.minor)), (c!"vectorString", .str o.vector)] := by
+    rw [hv]; rfl
+  rw [Aux.aj_unfold, severities_eq self _ _ _ hb ht he]
+  simp only [Aux.ajOptK_eq, hb, ht, he, hmi, Aux.strOInt_nat, h0, Aux.toOption_bind, Aux.toOption_ok, Option.bind_some,
+    Py.unpack3, Aux.aj_fold, Aux.toOption_req, Aux.usM_eq, Py.setitem]
+  unfold Model.asJson3
+  simp only [hm, Option.bind_eq_bind, Option.pure_def]
+  cases Model.addMetrics V3.jsonKeys (Model.V3.getDescription self.metrics) Model.us3
+      [(c!"version", .str (c!"3." ++ natToStr o.minor)), (c!"vectorString", .str o.vector)] V3.mandatory with
+  | none => rfl
+  | some d1 =>
+    simp only [Option.map_some, Option.bind_some, Aux.insert_jm_num, Aux.insert_jm_str, Aux.ajOpt_eq self o.orig ho]
+    by_cases c1 : (!minimal || V3.temporal.any fun k => hasKey k o.orig) = true
+    · simp only [c1, if_true]
+      cases Model.addMetrics V3.jsonKeys (Model.V3.getDescription self.metrics) Model.us3
+          (insert c!"baseSeverity" (Model.JVal.str (Model.us3 (Model.V3.sevOf o.base)))
+            (insert c!"baseScore" (Model.JVal.num o.base) d1)) V3.temporal with
+      | none => rfl
+      | some d2 =>
+        simp only [Option.bind_some, Option.map_some]
+        exact Aux.aj_tail self o.orig ho minimal sort _ _ _ _ _
+    · simp only [c1, Bool.false_eq_true, if_false, Option.bind_some, Option.map_some]
+      exact Aux.aj_tail self o.orig ho minimal sort _ _ _ _ _
 
 end Cvss.Props.CodeTie3
